@@ -1,5 +1,7 @@
 import NanoVerif.Model.Proto
 import NanoVerif.Model.Penalty
+import NanoVerif.Model.PenaltySolver
+import NanoVerif.Model.PenaltyState
 /-!
   driver families `pen` and `al` (C05): one self-contained op per line, the generic model of `Model/Constraint.lean` and
   `Model/Penalty.lean` run at `Float`. The grammar of the op lines is documented at the top of `harness/c05.cpp`.
@@ -9,9 +11,17 @@ import NanoVerif.Model.Penalty
       Exact section: the acceptance flags of `function_t::constrain`, and the three penalties (value, gradient, value-only
       call) computed by the model from the dumped evaluations. Tolerant section (after `~`): every constraint's
       `is_equality`, value, gradient and `nano::valid` computed by the model from the coefficients.
-  `al solve … | <f(x0)> <ro1> <ceq(x0)> <cineq(x0)> <nrec> (<iter_ok> <bstate.valid> <cstate.x> <cstate.ceq> <cstate.cineq>)*nrec`
+  `al solve … | <f(x0)> <ro1> <ceq(x0)> <cineq(x0)> <nrec> (<iter_ok> <bstate.valid> <cstate.x> <cstate.ceq> <cstate.cineq> <start-observed> <value-observed> <f(cstate.x)>)*nrec
+                <valid> <gx> <k> (<is_eq> <gc>)*k`        (the last four: the returned state, for `test3 test4 test5`)
       oracle-replay of the outer loop: the constraint functions are replaced by the table of logged evaluations, the
       inner solver by the logged answers; the model's `alLoop` must reproduce every logged decision and number.
+  `ps solve <lin|quad> … | <k> (<is_eq> <fc>)*k <nrec> (<iter_ok> <bstate.valid> <start-observed> <cstate.x> <cstate.fx> <f(cstate.x)> <k> (<is_eq> <fc>)*k)*nrec`
+      oracle-replay of the outer loop of the two penalty solvers: the inner solver is replaced by the logged answers, the
+      model's `penLoop` must reproduce every logged decision, penalty parameter, starting point and the returned point
+      (exact section); the value the inner solver reports at its answer must be the linear / quadratic penalty of the
+      objective with the penalty parameter of that iteration (computed by the model from the dumped evaluations, exact).
+      Tolerant section: the constraint values of the returned state and its two feasibility residuals, computed by the
+      model from the coefficients of the constraint kinds at the returned point.
 -/
 namespace NanoVerif.Driver.Penalty
 open NanoVerif.Proto NanoVerif.Constraint NanoVerif.Penalty
@@ -167,6 +177,11 @@ structure Rec where
   cx : List Float
   cceq : List Float
   ccineq : List Float
+  /-- the inner solver iterated: the point it started at was observed -/
+  hasStart : Bool
+  /-- the value the inner solver reports at its answer was observed; `fcx` = the objective there -/
+  hasObj : Bool
+  fcx : Float
 
 def pRec : P Rec := fun ts => do
   let (ok, ts) ← pBool ts
@@ -174,7 +189,10 @@ def pRec : P Rec := fun ts => do
   let (cx, ts) ← pList pFloat ts
   let (cceq, ts) ← pList pFloat ts
   let (ccineq, ts) ← pList pFloat ts
-  pure (⟨ok, bv, cx, cceq, ccineq⟩, ts)
+  let (hs, ts) ← pBool ts
+  let (ho, ts) ← pBool ts
+  let (fcx, ts) ← pFloat ts
+  pure (⟨ok, bv, cx, cceq, ccineq, hs, ho, fcx⟩, ts)
 
 /-- the logged evaluations of the constraints: point ↦ (equality values, inequality values) -/
 abbrev Table := List (List Float × List Float × List Float)
@@ -186,6 +204,34 @@ def lookup (t : Table) (x : List Float) : Option (List Float × List Float) :=
 def tableConstraints (n neq nineq : Nat) (t : Table) : List (C Float) :=
   (List.range neq).map (fun j => C.funEq n (fun x => (((lookup t x).map (·.1.getD j nanF)).getD nanF, []))) ++
   (List.range nineq).map (fun i => C.funIneq n (fun x => (((lookup t x).map (·.2.getD i nanF)).getD nanF, [])))
+
+/-- `<is_eq> <gc>`: a constraint's gradient at the returned point -/
+def pDumpG : P (Bool × List Float) := fun ts => do
+  let (e, ts) ← pBool ts
+  let (gc, ts) ← pList pFloat ts
+  pure ((e, gc), ts)
+
+/-- `test3 test4 test5` of a state with the stored multipliers `meq`, `mineq`, from the dumped gradients -/
+def showKkt345 (valid : Bool) (gx : List Float) (grads : List (Bool × List Float)) (meq mineq cineq : List Float) : String :=
+  if !valid then "- - -" else
+    let es : List (Eval Float) := grads.map (fun g => ⟨g.1, 0.0, g.2⟩)
+    let t5 := match lagrangianGrad gx es meq mineq with
+      | some lgx => hexOfFloat (kkt5 lgx)
+      | none => "none"
+    s!"{hexOfFloat (kkt3 mineq)} {hexOfFloat (kkt4 mineq cineq)} {t5}"
+
+/-- the values of the constraints in the order of the constraint list, from the equality and the inequality values -/
+def interleave : List (C Float) → List Float → List Float → List (Bool × Float)
+  | [], _, _ => []
+  | c :: cs, hs, gs =>
+    if c.isEq then
+      match hs with
+      | h :: hs' => (true, h) :: interleave cs hs' gs
+      | [] => (true, nanF) :: interleave cs [] gs
+    else
+      match gs with
+      | g :: gs' => (false, g) :: interleave cs hs gs'
+      | [] => (false, nanF) :: interleave cs hs []
 
 def handleAl : Toks → Option String
   | "solve" :: ts => do
@@ -205,6 +251,9 @@ def handleAl : Toks → Option String
     let (bceq0, ts) ← pList pFloat ts
     let (bcineq0, ts) ← pList pFloat ts
     let (recs, ts) ← pList pRec ts
+    let (rvalid, ts) ← pBool ts
+    let (rgx, ts) ← pList pFloat ts
+    let (rgrads, ts) ← pList pDumpG ts
     guard ts.isEmpty
     guard (x0.length = n)
     -- the constraint kinds (no functional ones in this family)
@@ -227,9 +276,17 @@ def handleAl : Toks → Option String
       let s := alLoop cs p inner k init
       let a := answers.getD k dummy
       let crit := if a.iterOk then hexOfFloat (criterion a.cstate s.miu s.ro) else "-"
+      let r := recs.getD k ⟨false, false, [], [], [], false, false, nanF⟩
+      -- the function the inner solver was given: the augmented Lagrangian with this iteration's `ro`, `lambda`, `miu`
+      -- (value-only call), rebuilt from the objective's value and the constraint values of `cstate`
+      let evals := (interleave kinds r.cceq r.ccineq).map (fun (e, v) => (⟨e, v, []⟩ : Eval Float))
+      let obj := match augLagrangian s.ro s.lambda s.miu (r.fcx, []) evals with
+        | some v => hexOfFloat v.1
+        | none => "none"
       String.intercalate " " [toString s.iters, showBool a.iterOk, crit, showBool (alConverged p s a),
         showBool (xConverged s.best.x a.cstate.x eps), hexOfFloat s.ro, showFloats s.lambda, showFloats s.miu,
-        hexOfFloat s.oldCrit, showFloats s.best.x, showFloats s.best.ceq, showFloats s.best.cineq])
+        hexOfFloat s.oldCrit, showFloats s.best.x, showFloats s.best.ceq, showFloats s.best.cineq,
+        if r.hasStart then showFloats s.best.x else "-", if r.hasObj then obj else "-"])
     let retx := final.best.x
     -- tolerant section: `make_ro1`, and the constraint kinds at the first and at the returned point
     let ro1m := makeRo1 fx0 (mkState cs x0) 1e-6 1e-6 10.0
@@ -238,14 +295,103 @@ def handleAl : Toks → Option String
       s!"{showFloats (evalEq kinds r.cx)} {showFloats (evalIneq kinds r.cx)}")
     pure (String.intercalate " " (["ok", toString final.status, toString final.iters] ++ recStrs ++
       [showFloats retx, showFloats final.best.ceq, showFloats final.best.cineq, hexOfFloat (violation final.best),
+       showKkt345 rvalid rgx rgrads final.bmeq final.bmineq final.best.cineq,
        "~", hexOfFloat ro1m, showFloats (evalEq kinds x0), showFloats (evalIneq kinds x0),
        showFloats (evalEq kinds retx), showFloats (evalIneq kinds retx)] ++ consistent))
+  | _ => none
+
+/-- `<is_eq> <fc>`: a constraint evaluated at a point (value only) -/
+def pDumpV : P (Bool × Float) := fun ts => do
+  let (e, ts) ← pBool ts
+  let (fc, ts) ← pFloat ts
+  pure ((e, fc), ts)
+
+/-- one logged answer of the oracle of the penalty solvers -/
+structure PRec where
+  iterOk : Bool
+  bvalid : Bool
+  /-- the inner solver iterated: the point it started at was observed -/
+  hasStart : Bool
+  cx : List Float
+  cfx : Float
+  fcx : Float
+  dumps : List (Bool × Float)
+
+def pPRec : P PRec := fun ts => do
+  let (ok, ts) ← pBool ts
+  let (bv, ts) ← pBool ts
+  let (hs, ts) ← pBool ts
+  let (cx, ts) ← pList pFloat ts
+  let (cfx, ts) ← pFloat ts
+  let (fcx, ts) ← pFloat ts
+  let (dumps, ts) ← pList pDumpV ts
+  pure (⟨ok, bv, hs, cx, cfx, fcx, dumps⟩, ts)
+
+/-- the model's constraint for a parsed one in a whole-run replay: a functional constraint (the `j`-th accepted one)
+    answers from the table of dumped evaluations (NaN at an unknown point) -/
+def toCAt (table : List (List Float × List (Bool × Float))) (j : Nat) : PC → C Float
+  | .plain c => c
+  | .func isEq size =>
+    let f : List Float → Float × List Float := fun x =>
+      (((table.find? (fun e => e.1 == x)).map (fun e => (e.2.getD j (isEq, nanF)).2)).getD nanF, [])
+    if isEq then .funEq size f else .funIneq size f
+
+def handlePs : Toks → Option String
+  | "solve" :: ts => do
+    let (which, ts) ← pStr ts
+    guard (which = "lin" ∨ which = "quad")
+    let ((n, _, pcs), ts) ← pProblem ts
+    let (x0, ts) ← pList pFloat ts
+    let (eps, ts) ← pFloat ts
+    let (_maxEvals, ts) ← pNat ts
+    let (eta, ts) ← pFloat ts
+    let (eps0, ts) ← pFloat ts
+    let (epsK, ts) ← pFloat ts
+    let (penalty0, ts) ← pFloat ts
+    let (maxOuters, ts) ← pNat ts
+    let (_, ts) ← pTok "|" ts
+    let (dumps0, ts) ← pList pDumpV ts
+    let (recs, ts) ← pList pPRec ts
+    let (rvalid, ts) ← pBool ts
+    let (rgx, ts) ← pList pFloat ts
+    let (rgrads, ts) ← pList pDumpG ts
+    guard ts.isEmpty
+    guard (x0.length = n)
+    let kept := pcs.filter (pcCompatible n)
+    guard (dumps0.length = kept.length)
+    let table := (x0, dumps0) :: (recs.filter (·.iterOk)).map (fun r => (r.cx, r.dumps))
+    let cs : List (C Float) := (kept.zip (List.range kept.length)).map (fun (pc, j) => toCAt table j pc)
+    let p : PParams Float := ⟨eps, eta, epsK⟩
+    let answers : List (PAnswer Float) := recs.map (fun r => ⟨r.cx, r.iterOk, r.bvalid⟩)
+    -- beyond the log the oracle converges at once on an empty point: the model then reports more iterations than logged
+    let dummy : PAnswer Float := ⟨[], true, true⟩
+    let inner : Nat → PState Float → PAnswer Float := fun k _ => answers.getD k dummy
+    let final := penSolve cs p penalty0 eps0 maxOuters inner x0
+    let calls := final.calls
+    guard (calls.length = final.iters)
+    let recStrs := (calls.zip recs).map (fun (c, r) =>
+      -- the objective the inner solver was given: the penalty function with the penalty parameter of this iteration
+      let evals : List (Eval Float) := r.dumps.map (fun d => ⟨d.1, d.2, []⟩)
+      let obj := if which = "lin" then linearPenalty c.penalty (r.fcx, []) evals
+                 else quadraticPenalty c.penalty (r.fcx, []) evals
+      String.intercalate " " [hexOfFloat c.penalty, showBool c.iterOk,
+        if c.iterOk then showBool c.xconv else "-", if c.iterOk then showBool c.xconv else "-", showFloats c.start,
+        -- the point the inner solver was started at (observed at its first iteration, when it made one)
+        if r.hasStart then showFloats c.start else "-",
+        if c.iterOk then hexOfFloat obj.1 else "-"])
+    let ret := final.best
+    pure (String.intercalate " " (["ok", toString final.status, toString final.iters] ++ recStrs ++
+      -- the penalty solvers never pass multipliers to `bstate.update`: the state keeps the zero vectors of its constructor
+      [showFloats ret.x, showKkt345 rvalid rgx rgrads (zeros ret.ceq.length) (zeros ret.cineq.length) ret.cineq,
+       "~", showFloats ret.ceq, showFloats ret.cineq, hexOfFloat (kktTest1 ret),
+       hexOfFloat (kktTest2 ret)]))
   | _ => none
 
 def handle (fam : String) (rest : Toks) : Option String :=
   match fam with
   | "pen" => handlePen rest
   | "al" => handleAl rest
+  | "ps" => handlePs rest
   | _ => none
 
 end NanoVerif.Driver.Penalty
